@@ -10,7 +10,7 @@ use crate::sweep::{run_sweep, Sweep};
 use vlib::report::{Acc, SubReport};
 
 /// all strings of length ≤ 4 over {0x00, 'a', 0xFF}: 121 stores
-fn stores() -> Vec<Vec<u8>> {
+pub fn stores() -> Vec<Vec<u8>> {
     let sym = [0u8, b'a', 0xFF];
     let mut out = vec![];
     let n = vlib::par::strings_count(3, 4);
@@ -46,7 +46,7 @@ fn entry(tags: &[u32], d_tag: u64, d_ty: u64, d_off: u64, d_cnt: u64, offs: &[i6
     })
 }
 
-fn run_headers(name: &str, which_sig: bool, n_entries: usize, tags: &[u32], offs: &[i64], counts: &[u32], store_list: &[Vec<u8>], payloads: &[&'static [u8]]) -> Sweep {
+pub fn run_headers(name: &str, which_sig: bool, n_entries: usize, tags: &[u32], offs: &[i64], counts: &[u32], store_list: &[Vec<u8>], payloads: &[&'static [u8]]) -> Sweep {
     let (tags, offs, counts, store_list, payloads) = (tags.to_vec(), offs.to_vec(), counts.to_vec(), store_list.to_vec(), payloads.to_vec());
     let name = name.to_string();
     let per = [tags.len() as u64, 10, offs.len() as u64, counts.len() as u64];
